@@ -36,7 +36,12 @@ def classify(P, Y, atol, in_thr=None):
     R, t, rmsd, maxdev = geom.kabsch(P, Y)
     if maxdev <= in_thr:
         return "in", maxdev, rmsd
-    if rmsd > SQ3 * (1.01 * atol + 1e-5 * float(np.abs(Y).max())) + 1e-6:
+    lim = SQ3 * (1.01 * atol + 1e-5 * float(np.abs(Y).max())) + 1e-6
+    if rmsd > lim:
+        return "out", maxdev, rmsd
+    # one misplaced atom among many is averaged away by the RMSD; a certified lower bound on the minimax deviation (no
+    # proper rigid motion brings every atom closer than this) decides those
+    if n > 2 and maxdev > lim and geom.minimax_lower_bound(P, Y) > lim:
         return "out", maxdev, rmsd
     return "grey", maxdev, rmsd
 
@@ -66,6 +71,7 @@ def find_all(cell, positions, elements, ppos, pels, atol, max_candidates=20000, 
     pels = list(pels)
     groups = {}
     ncand = 0
+    nnodes = 0
     for a in range(N):
         if elements[a] != pels[0]:
             continue
@@ -89,7 +95,10 @@ def find_all(cell, positions, elements, ppos, pels, atol, max_candidates=20000, 
         stack = [[]]
         # iterative DFS
         def rec(assigned):
-            nonlocal ncand
+            nonlocal ncand, nnodes
+            nnodes += 1
+            if nnodes > 15 * max_candidates:
+                raise TooAmbiguous()
             i = len(assigned) + 1
             if i == n:
                 ncand += 1
